@@ -200,7 +200,7 @@ func DurationMins(t *rapid.T, o Opts, label string) int {
 var asciiWords = []string{"foo", "bar", "Lunch", "break", "meeting", "with", "Liz", "work", "a", "I", "e-mail", "x_y", "Did", "something", "today.", "(urgent)", "50%", "A&B", "\"quoted\"", "it's", "<b>", "$1", "back\\slash", "end;"}
 var uniWords = []string{"über", "naïve", "日本語", "読む", "Привет", "καλημέρα", "🙂", "é", "İstanbul", "ǅ", "a b", "x\u3000y", "\ufffd", "a\ufffdb", " ", "ẞ"}
 var lookalikes = []string{"1h", "-5m", "+2h30m", "8:00", "8:00 - 9:00", "8:00-?", "2020-01-01", "2020/01/01", "(8h!)", "?", "???", "-", "- 9:00", "<23:00", "1:00>", "12:00am", "!", "()", "24:00", "0m"}
-var tagWords = []string{"#tag", "#Tag", "#TAG", "#work", "#home-office", "#a_b", "#読む", "#ü", "#1", "#tag=v", "#tag=V", "#tag=1-2", "#tag=\"a b\"", "#tag='a b'", "#tag=\"it's\"", "#tag='say \"hi\"'", "#tag=", "#tag=\"\"", "#tag=\"open", "#tag='open", "#a#b", "##c", "#x=y=z", "#work,", "(#work)", "#ticket=891", "#project=\"22/48.3\"", "#Ä=ö"}
+var tagWords = []string{"#tag", "#Tag", "#TAG", "#work", "#home-office", "#a_b", "#読む", "#ü", "#1", "#tag=v", "#tag=V", "#tag=1-2", "#tag=\"a b\"", "#tag='a b'", "#tag=\"it's\"", "#tag='say \"hi\"'", "#tag=", "#tag=\"\"", "#tag=\"open", "#tag='open", "#a#b", "##c", "#x=y=z", "#work,", "(#work)", "#ticket=891", "#project=\"22/48.3\"", "#Ä=ö", "#Straße", "#STRASSE", "#ẞ", "#ß", "#e\u0301", "#😀", "#tag=😀", "#İ", "#i", "#ǅ", "#１２", "#tag=１"}
 var controlWords = []string{"\x00", "\x1b[31mred\x1b[0m", "a\rb", "\x07", "\x7f", "\u0085", "\ufeff", "\u200b", "\x1b", "cr\r"}
 var invalidWords = []string{"\xff", "\xc3", "a\xe6\x97", "\xf0\x9f\x99", "\xc0\xaf", "\xed\xa0\x80", "ok\xfe"}
 
@@ -239,7 +239,13 @@ func text(t *rapid.T, o Opts, label string) string {
 		}
 		sb.WriteString(word(t, o, label+"W"))
 	}
-	return strings.ReplaceAll(sb.String(), "\n", " ")
+	out := strings.ReplaceAll(sb.String(), "\n", " ")
+	if rapid.IntRange(0, 59).Draw(t, label+"Long") == 0 {
+		// a very long line (more than 200 characters)
+		out = strings.Repeat(out+" ", rapid.IntRange(20, 60).Draw(t, label+"LongN"))
+		out = strings.TrimRight(out, " ") + "."
+	}
+	return out
 }
 
 // RecordSummaryLine: non-empty, does not start with a blank character (tab or Zs).
@@ -303,6 +309,9 @@ func EntrySummary(t *rapid.T, o Opts, label string) []model.Text {
 		out = append(out, model.Text(EntrySummaryFirst(t, o, label+"First")))
 	}
 	n := rapid.IntRange(0, 2).Draw(t, label+"More")
+	if rapid.IntRange(0, 29).Draw(t, label+"ManyLines") == 0 {
+		n = rapid.IntRange(3, 6).Draw(t, label+"MoreMany")
+	}
 	if len(out) == 1 && out[0] == "" && n == 0 {
 		n = 1
 	}
@@ -365,7 +374,7 @@ func Record(t *rapid.T, o Opts, day int, label string) model.Record {
 		r.HeadGap = rapid.SampledFrom([]string{" ", " ", " ", "  ", "    "}).Draw(t, label+"Gap")
 	}
 	if !o.NoSummary {
-		for i, n := 0, rapid.SampledFrom([]int{0, 0, 0, 1, 1, 2, 3}).Draw(t, label+"NSum"); i < n; i++ {
+		for i, n := 0, rapid.SampledFrom([]int{0, 0, 0, 1, 1, 2, 3, 0, 1, 0, 1, 2, 6}).Draw(t, label+"NSum"); i < n; i++ {
 			r.Summary = append(r.Summary, model.Text(RecordSummaryLine(t, o, label+"RSum")))
 		}
 	}
@@ -374,6 +383,9 @@ func Record(t *rapid.T, o Opts, day int, label string) model.Record {
 		maxE = 5
 	}
 	n := rapid.IntRange(0, maxE).Draw(t, label+"NEntries")
+	if o.MaxEntries == 0 && rapid.IntRange(0, 49).Draw(t, label+"ManyEntries") == 0 {
+		n = rapid.IntRange(41, 60).Draw(t, label+"NEntriesMany")
+	}
 	hasOpen := false
 	for i := 0; i < n; i++ {
 		e := Entry(t, o, !hasOpen, label+"E")
